@@ -1087,7 +1087,9 @@ def exact_select(
     *orders*: a ``min`` is at most every operand, so its upper bound is the
     least of theirs, and the join throws that away.  ``min`` over bounds 5 and
     1000 reaches 5, not 1000, which is how a clamp against a constant earns
-    its keep.
+    its keep.  Only an operand's finite values order it this way: ``min(x,
+    +inf)`` is ``x``, so an operand that may be ``+inf`` (for ``max``:
+    ``-inf``) contributes no bound.
 
     Returns ``None`` when an operand is not abstractable, leaving the caller's
     join in place.
@@ -1109,10 +1111,28 @@ def exact_select(
 
     pick = min if is_min else max
     joined = reduce(lambda a, b: a | b, afs)
+
+    # An operand orders the result only through its *finite* values: a bound
+    # says nothing about an operand that is the infinity of the far side, and
+    # then the selection returns another operand -- `min(x, +inf)` is `x`,
+    # whatever the other operand's `pos_bound` was.  (A NaN operand makes the
+    # result NaN, which `has_nan` covers.)  So the tightened bound ranges over
+    # the operands that cannot be that infinity; with none left the join's
+    # bound stands.
+    def tight(bound_of, escapes, joined_bound):
+        bounds = [bound_of(af) for af in afs if not escapes(af)]
+        return pick(bounds) if bounds else joined_bound
+
+    if is_min:
+        pos_bound = tight(lambda af: af.pos_bound, lambda af: af.has_pos_inf, joined.pos_bound)
+        neg_bound = joined.neg_bound
+    else:
+        pos_bound = joined.pos_bound
+        neg_bound = tight(lambda af: af.neg_bound, lambda af: af.has_neg_inf, joined.neg_bound)
     return AbstractFormat(
         joined.prec, joined.exp,
-        pick(af.pos_bound for af in afs),
-        neg_bound=pick(af.neg_bound for af in afs),
+        pos_bound,
+        neg_bound=neg_bound,
         has_pos_inf=joined.has_pos_inf,
         has_neg_inf=joined.has_neg_inf,
         has_nan=joined.has_nan,
